@@ -129,6 +129,12 @@ func SelftestMain(args []string) int {
 		}
 		jobs = append(jobs, run.Job{ID: fmt.Sprintf("lib/%d", i), Pkg: run.Module, Harness: "H_SelfLib", Params: map[string]interface{}{"n": n}, Values: vals})
 	}
+	// (iv) language features and library objects a change might introduce
+	for step := 0; step <= 10; step++ {
+		for _, x := range []uint64{0, 7, 0xfffffffe} {
+			jobs = append(jobs, run.Job{ID: fmt.Sprintf("lang/%d/%d", step, x), Pkg: run.Module, Harness: "H_SelfLang", Params: map[string]interface{}{"step": step}, Values: map[string]uint64{"x": x}})
+		}
+	}
 	for i := range jobs {
 		jobs[i].Property = "selftest"
 	}
@@ -202,7 +208,7 @@ func SelftestMain(args []string) int {
 		bad += kbad
 	}
 	sum := map[string]interface{}{"kernel_validation": kernelSummary, "tier": *tier, "seed": seed, "instances": len(jobs), "observations_compared": compared, "failures": bad, "wall_s": time.Since(t0).Seconds(),
-		"what": "H_Sig: every raw instruction of compiled concrete policies, engine vs native; H_SelfKMI: kernel model result on concrete events, engine vs native, and natively vs x/net/bpf's VM (big-endian layout) and vs the reference decision; H_SelfLib: the library models (sort.Slice/SliceStable/Sort/Ints through the real less and Swap, call-through of pure string/number functions, sentinel errors and the %w chain) on concrete inputs, engine vs native"}
+		"what": "H_Sig: every raw instruction of compiled concrete policies, engine vs native; H_SelfKMI: kernel model result on concrete events, engine vs native, and natively vs x/net/bpf's VM (big-endian layout) and vs the reference decision; H_SelfLib: the library models (sort.Slice/SliceStable/Sort/Ints through the real less and Swap, call-through of pure string/number functions, sentinel errors and the %w chain) on concrete inputs, engine vs native; H_SelfLang: generics, recover, method values, goroutines and channels under the one schedule the engine runs, sync.Pool, sync.Map, strings.Builder, bytes.Buffer, select"}
 	b, _ := json.MarshalIndent(sum, "", " ")
 	os.MkdirAll(filepath.Join(*verif, "selftest"), 0o755)
 	os.WriteFile(filepath.Join(*verif, "selftest", "last.json"), b, 0o644)
